@@ -10,7 +10,11 @@ import PoxModel.Proofs.Addr.Cidr
 import PoxModel.Proofs.Addr.Order
 import PoxModel.Proofs.Addr.Eth
 import PoxModel.Proofs.Addr.Spec
+import PoxModel.Proofs.Addr.Parse6
+import PoxModel.Proofs.Addr.Parse4
+import PoxModel.Proofs.Addr.EthSpec
 /-! Helper lemmas for C16 (address types), split by topic under `Proofs/Addr/`:
 `Mask` (netmask loop, membership), `IP4` (byte orders), `Text` (digits, `int()`, split/join/count), `Runs` (zero-run choice,
 checked on all 2^8 patterns), `IP6`/`IP6RT` (IPv6 print→parse), `Dpid`, `Canon` (RFC 5952 shape, mapped addresses, IPv6
-masks), `Cidr` (`parse_cidr` text forms), `Order` (byte-wise order), `Eth` (Ethernet text forms), `Spec` (RFC 4291 text grammar).  Core only. -/
+masks), `Cidr` (`parse_cidr` text forms), `Order` (byte-wise order), `Eth` (Ethernet text forms), `Spec` (RFC 4291 denotation, Ethernet reference definition), `Parse6` (parser = denotation on every valid IPv6 text),
+`Parse4` (canonical dotted quads, classful inference), `EthSpec` (EthAddr text = reference definition).  Core only. -/
